@@ -141,6 +141,17 @@ func c02Run(r *Run) {
 		return nil
 	}
 
+	// the package has a level reducer for breaks (a function from a break control to the control the
+	// enclosing construct must see): then a loop that consumes a break hands it to the reducer or tests
+	// the level itself
+	haveBreakReducer := false
+	for _, fd := range funcDecls(npkg) {
+		if fd.Recv == nil && fd.Type.Params != nil && len(fd.Type.Params.List) == 1 && fd.Type.Results != nil && len(fd.Type.Results.List) == 1 {
+			if controlKind(info.TypeOf(fd.Type.Params.List[0].Type)) == "Break" && isControl(info.TypeOf(fd.Type.Results.List[0].Type)) {
+				haveBreakReducer = true
+			}
+		}
+	}
 	declOf := map[*types.Func]*ast.FuncDecl{}
 	for _, p := range r.ByPath {
 		for _, fd := range funcDecls(p) {
@@ -593,7 +604,9 @@ func c02Run(r *Run) {
 			// OWN: on the break arm the control handed back must be nil
 			if s.breakPending && ctlIdx >= 0 && ctlIdx < len(rs.Results) && len(rs.Results) == nResults {
 				last := rs.Results[ctlIdx]
-				if exprStr(last) == "nil" {
+				if exprStr(last) == "nil" && !s.breakCond && haveBreakReducer && !isGeneratorState(npkg, fd) {
+					rec("C02-OWN", "consumes:break", rs.Pos(), false, "the break is consumed here without its level having been looked at (no level test on this arm, and the control is not handed to the level reducer): `break 2` ends only this loop and the enclosing loop keeps running")
+				} else if exprStr(last) == "nil" {
 					rec("C02-OWN", "consumes:break", rs.Pos(), true, "the break is consumed here: nil control handed back")
 				} else if c, ok := ast.Unparen(last).(*ast.CallExpr); ok && reducer(c) {
 					rec("C02-OWN", "consumes:break", rs.Pos(), true, "one level of the break is consumed here: "+exprStr(c.Fun)+" hands back nil or a new control, never the break it was given")
@@ -1427,4 +1440,21 @@ func c02Order(r *Run, npkg *packages.Package) {
 		walk(fd.Body, map[*types.Var]bool{})
 	}
 	r.stat("branch_slice_fields", len(branchField))
+}
+
+// isGeneratorState: fd is a method of a generator resumption object (a type that implements
+// data.YieldControl — it carries CreateStackState), not of a loop statement node. Generators are
+// outside the construct list C02 quantifies over; their resumption loops are not judged as loop nodes.
+func isGeneratorState(npkg *packages.Package, fd *ast.FuncDecl) bool {
+	if fd.Recv == nil || len(fd.Recv.List) != 1 {
+		return false
+	}
+	t := npkg.TypesInfo.TypeOf(fd.Recv.List[0].Type)
+	if t == nil {
+		return false
+	}
+	if _, isPtr := t.(*types.Pointer); !isPtr {
+		t = types.NewPointer(t)
+	}
+	return types.NewMethodSet(t).Lookup(npkg.Types, "CreateStackState") != nil
 }
